@@ -303,8 +303,10 @@ def call_parse(case):
     kw = dict(case.get("kw") or {})
     st = decode_settings(case.get("settings"))
     res = {"out": [], "off": "naive", "period": "", "locale": "", "exc": "", "mro": []}
-    res["clock0"] = dt_to_list(_dt.datetime.now())
-    res["uclock0"] = dt_to_list(_dt.datetime.now(_dt.timezone.utc).replace(tzinfo=None))
+    fc = fake_clock(case.get("fake_today"))
+    fc.__enter__()
+    res["clock0"] = fc.shifted(dt_to_list(_dt.datetime.now()))
+    res["uclock0"] = fc.shifted(dt_to_list(_dt.datetime.now(_dt.timezone.utc).replace(tzinfo=None)))
     try:
         if case.get("api", "ddp") == "parse":
             d = dateparser.parse(case["s"], settings=st, **kw)
@@ -326,8 +328,9 @@ def call_parse(case):
         res["msg"] = str(e)[:200]
     if case.get("pk") and not res["exc"]:
         res["pk"] = _pickle_copy_ok(d)
-    res["clock1"] = dt_to_list(_dt.datetime.now())
-    res["uclock1"] = dt_to_list(_dt.datetime.now(_dt.timezone.utc).replace(tzinfo=None))
+    res["clock1"] = fc.shifted(dt_to_list(_dt.datetime.now()))
+    res["uclock1"] = fc.shifted(dt_to_list(_dt.datetime.now(_dt.timezone.utc).replace(tzinfo=None)))
+    fc.__exit__(None, None, None)
     evs = []
     for rec in _state.events:
         sg = rec.get("sg")
@@ -338,6 +341,65 @@ def call_parse(case):
     res["probe"] = evs
     res["unbound"] = list(_PROBE["unbound"])
     return res
+
+
+class _ClockMeta(type):
+    def __instancecheck__(cls, obj):
+        return isinstance(obj, _dt.datetime)
+
+
+class fake_clock:
+    """the wall clock as the LIBRARY sees it, shifted so that "today" is a chosen date (run-time, by name: the `datetime`
+    name bound in the modules that ask for the current time).  What the process' real clock shows is irrelevant to every
+    property; which day it is (a 31st, a leap day, New Year's Eve) is a dimension of its own."""
+    MODULES = ("dateparser.parser", "dateparser.date", "dateparser.freshness_date_parser", "dateparser.utils", "dateparser.calendars")
+
+    def __init__(self, today):
+        self.today = today
+        self.saved = []
+
+    def __enter__(self):
+        if not self.today:
+            return self
+        import importlib
+        real = _dt.datetime
+        delta = real(*self.today[:3]) - real.now().replace(hour=0, minute=0, second=0, microsecond=0)
+
+        class FDT(real, metaclass=_ClockMeta):
+            @classmethod
+            def now(cls, tz=None):
+                return real.now(tz) + delta
+
+            @classmethod
+            def utcnow(cls):
+                return real.utcnow() + delta
+
+            @classmethod
+            def today(cls):
+                return real.today() + delta
+        self.delta = delta
+        for m in self.MODULES:
+            try:
+                mod = importlib.import_module(m)
+            except Exception:
+                continue
+            if getattr(mod, "datetime", None) is real:
+                self.saved.append((mod, real))
+                mod.datetime = FDT
+        if not self.saved:
+            _PROBE["unbound"].append("fake clock: no module binds datetime")
+        return self
+
+    def __exit__(self, *a):
+        for mod, real in self.saved:
+            mod.datetime = real
+        return False
+
+    def shifted(self, lst):
+        """a harness clock reading (list) moved to the library's clock"""
+        if not self.today or not lst:
+            return lst
+        return dt_to_list(list_to_dt(lst) + self.delta)
 
 
 def call_parse_batch(batch):
@@ -592,7 +654,8 @@ def call_calendar(case):
         from dateparser.calendars.hijri_parser import hijri_parser as P
     res = {"out": [], "period": "", "exc": "", "toks": []}
     try:
-        r = C(case["s"]).get_date()
+        with fake_clock(case.get("fake_today")):
+            r = C(case["s"]).get_date()
         if r is not None and r["date_obj"] is not None:
             res["out"] = dt_to_list(r["date_obj"])
             res["period"] = r["period"] or ""
